@@ -449,7 +449,7 @@ func TestC07(t *testing.T) {
 		p := hist.GenParams(rt, fmt.Sprint(h.Seed))
 		u := hist.NewU(rt)
 		prof := profileWheel[u.N(len(profileWheel), "profile")]
-		scripted := (prof == "governance") && u.N(2, "scripted") == 0
+		scripted := (prof == "governance") && u.N(3, "scripted") != 0
 		role := hist.Roles(p, 2)[u.N(2, "role")]
 		tr := &hist.Trace{Params: p, Roles: []sim.Role{role}, Profile: prof}
 		if scripted {
@@ -461,6 +461,7 @@ func TestC07(t *testing.T) {
 		var script [][]txgen.Tx
 		scriptID := ""      // id of the scripted config-update proposal whose finalisation is checked mid-block
 		finalizeChecks := 0 // blocks in which such checks were injected
+		votesSeen := false  // a batch of its votes was put into an earlier block
 		nscript := 0
 		// forged twins waiting for a later block: the valid original was already checked on the replica under test
 		var forgedLater []txgen.Tx
@@ -476,6 +477,7 @@ func TestC07(t *testing.T) {
 			}
 			blocks++
 			txs := applyExclusions(h, g, g.DrawTxs(4))
+			scriptVotesInThisBlock := false
 			if len(forgedLater) > 0 {
 				at := u.N(len(txs)+1, "forgedat")
 				txs = append(txs[:at:at], append(append([]txgen.Tx{}, forgedLater...), txs[at:]...)...)
@@ -483,10 +485,10 @@ func TestC07(t *testing.T) {
 			}
 			if scripted {
 				if len(script) == 0 && u.N(3, "newscript") == 0 {
-					if w.C.Height >= 2 && u.N(3, "cfgscript") == 0 {
+					if w.C.Height >= 2 && u.N(2, "cfgscript") == 0 {
 						nscript++
 						script, scriptID = scriptCfgProposal(u, g, nscript)
-						finalizeChecks = 0
+						finalizeChecks, votesSeen = 0, false
 					} else {
 						script, scriptID = scriptProposal(rt, u, g), ""
 					}
@@ -496,6 +498,7 @@ func TestC07(t *testing.T) {
 					n := len(stage)
 					if len(script) == 1 { // the votes may be spread over several blocks
 						n = u.Range(1, len(stage), "scriptn")
+						scriptVotesInThisBlock = true
 					}
 					at := u.N(len(txs)+1, "scriptat")
 					ins := append([]txgen.Tx{}, stage[:n]...)
@@ -558,7 +561,9 @@ func TestC07(t *testing.T) {
 			}
 			// the scripted config-update proposal has been voted on: check its PROPOSAL_FINALIZE (any account may sign it)
 			// between BeginBlock and the block's transactions, where the update functions' side effects would matter
-			if scriptID != "" && len(script) == 0 && finalizeChecks < 3 && u.N(2, "cfgfinalize") == 0 {
+			// (a passed proposal is finalised at the end of the block after the one that completed the vote)
+			votesNow := scriptID != "" && len(script) <= 1 && scriptVotesInThisBlock
+			if scriptID != "" && votesSeen && finalizeChecks < 4 {
 				finalizeChecks++
 				fu := w.G.U.Users[u.N(len(w.G.U.Users), "cfgfinalizer")]
 				k := u.N(len(txs)+1, "cfgfinalizeat")
@@ -567,6 +572,9 @@ func TestC07(t *testing.T) {
 					bnd = fmt.Sprintf("after-tx:%d", k-1)
 				}
 				push(bnd, txgen.ProposalFinalize(fu, govID(scriptID), fu.Addr, w.Fee, w.Memo()))
+			}
+			if votesNow {
+				votesSeen = true
 			}
 			add("before-begin", -1)
 			add("after-begin", -1)
@@ -625,7 +633,7 @@ func scriptProposal(rt *rapid.T, u *hist.U, g *hist.Gen) [][]txgen.Tx {
 }
 
 var cfgUpdates = []string{
-	"feeOption.minFeeDecimal:8", "feeOption.minFeeDecimal:8", "feeOption.minFeeDecimal:10", "onsOptions.perBlockFees:100000000000001",
+	"feeOption.minFeeDecimal:8", "feeOption.minFeeDecimal:8", "feeOption.minFeeDecimal:8", "feeOption.minFeeDecimal:10", "onsOptions.perBlockFees:100000000000001",
 	"onsOptions.baseDomainPrice:1000000000000000000001", "stakingOptions.maturityTime:109300", "stakingOptions.topValidatorCount:8",
 }
 
